@@ -130,7 +130,10 @@ def _is_trunc_div(eng, D, st, R, T, q):
         quo = abs(tk[0]) // abs(kp)
         if (tk[0] < 0) != (kp < 0):
             quo = -quo
-        return D.implies(st, R - quo, "==")
+        if D.implies(st, R - quo, "=="):
+            return True
+        if k is not None:
+            return False
     lo, hi = -(1 << 127), (1 << 127) - 1
     if k is not None:
         exp = eng.atom("tdiv(%r,%d)" % (T, k), lo, hi, "tdiv", (T, k))
